@@ -21,7 +21,7 @@ func init() {
 			"distinct = distinct (document, graph, op, fault plan); non-trivial = the failing call lies below the root level or inside a list or a fragment",
 		Technique:      "exhaustive fault enumeration over every resolver invocation of every bounded request, on the real resolver, against a reference executor",
 		Assumptions:    []string{"faults are keyed by (node, field): every invocation of that field on that node fails", "under reflection only method-backed fields can fail"},
-		QuickBudget:    100 * time.Second,
+		QuickBudget:    120 * time.Second,
 		ThoroughBudget: 25 * time.Minute,
 	})
 }
@@ -46,7 +46,7 @@ func runC06(c *core.Ctx) {
 	k := 1
 	graphs := []*world.Graph{world.BaseGraph(0), world.BaseGraph(1)}
 	fsViews := []*world.Graph{graphs[0].FSView(s), graphs[1].FSView(s)}
-	kinds := []world.FaultKind{world.FaultErr, world.FaultGroup, world.FaultExt, world.FaultShared, world.FaultWrapped}
+	kinds := []world.FaultKind{world.FaultErr, world.FaultGroup, world.FaultExt, world.FaultShared, world.FaultWrapped, world.FaultTwin}
 	completed := true
 	docsWithin(c, s, world.BaseDocs(), k, 0, func(d *world.Doc, dist int) bool {
 		if c.Expired() {
@@ -118,6 +118,9 @@ func runC06(c *core.Ctx) {
 						var plans []plan
 						for _, ck := range calls {
 							for _, fk := range kinds {
+								if fk == world.FaultWrapped && dist > 0 && !c.Thorough() {
+									continue // quick: the wrapped group on the bases only (the plain and the twin group go everywhere)
+								}
 								plans = append(plans, plan{keyOf(ck): fk})
 							}
 						}
